@@ -233,39 +233,41 @@ def run(ctx):
     for d in digs[1:]:
         allev.append({"ev": "eq", "what": "file/stdin x fasta/fastq", "o": dict(oligo), "a": digs[0], "b": d})
     # what is behind -i need not be a regular file: a named pipe and /dev/stdin, for the commands that read their input once
+    # (counting and coverage read it twice; the minimiser listings need a suffix to tell the format)
     import subprocess, threading
-    oc = dict(oligo, counts=True)
-    ref = None
-    for j, kind in enumerate(["file", "fifo", "devstdin"]):
+    mins = {"cmd": "min", "m": 7, "wrel": "plus1", "preset": "s2m", "threads": 2}
+    cgr1 = {"cmd": "cgr", "k": -1, "vecsize": -1, "counts": False, "threads": 2}
+    cgrk = {"cmd": "cgr", "k": 3, "vecsize": -1, "counts": True, "threads": 2}
+    clean_fa = inp + ".clean.fa"
+    once = [(dict(oligo, counts=True), fa2, ["fifo", "devstdin"]), (cgr1, clean_fa, ["fifo", "devstdin"]), (cgrk, fa2, ["fifo", "devstdin"]),
+            (mins, fa2, ["fifo"]), (dict(mins, preset="m2s"), fa2, ["fifo"])]
+    for j, (oc, src, kinds) in enumerate(once):
         out = ctx.path("cli_kind_%d" % j)
         clean(out)
-        if kind == "file":
-            vlib.sh([cli] + args_of(oc, fa2, out, alt), timeout=600)
-        elif kind == "fifo":
-            ff = ctx.path("pipe_in.fa")
-            clean(ff)
-            os.mkfifo(ff)
-            feeder = subprocess.Popen(["sh", "-c", 'cat "$0" > "$1"', fa2, ff])
-            try:
-                vlib.sh([cli] + args_of(oc, ff, out, alt), timeout=120)
-            except Exception:
-                pass
-            feeder.kill()
-            feeder.wait()
-            os.remove(ff)
-        else:
-            with open(fa2, "rb") as fh:
-                vlib.sh([cli] + args_of(oc, "/dev/stdin", out, alt), timeout=120, stdin=fh)
-        d = digest(oc, out)
+        vlib.sh([cli] + args_of(oc, src, out, alt), timeout=600)
+        ref = digest(oc, out)
         clean(out)
-        if kind == "file":
-            ref = d
-        else:
+        for kind in kinds:
+            if kind == "fifo":
+                ff = ctx.path("pipe_in.fa")
+                clean(ff)
+                os.mkfifo(ff)
+                feeder = subprocess.Popen(["sh", "-c", 'cat "$0" > "$1"', src, ff])
+                try:
+                    vlib.sh([cli] + args_of(oc, ff, out, alt), timeout=120)
+                except Exception:
+                    pass
+                feeder.kill()
+                feeder.wait()
+                os.remove(ff)
+            else:
+                with open(src, "rb") as fh:
+                    vlib.sh([cli] + args_of(oc, "/dev/stdin", out, alt), timeout=120, stdin=fh)
+            d = digest(oc, out)
+            clean(out)
             allev.append({"ev": "eq", "what": "input behind -i: regular file vs %s" % kind, "o": dict(oc), "a": ref, "b": d})
     # what is behind -o need not be a regular file either: the stream writers (counts, CGR, minimiser listings) into a pipe
-    mins = {"cmd": "min", "m": 7, "wrel": "plus1", "preset": "s2m", "threads": 2}
-    streamers = [(dict(oligo, counts=True), fa2), ({"cmd": "cgr", "k": -1, "vecsize": -1, "counts": False, "threads": 2}, inp + ".clean.fa"),
-                 ({"cmd": "cgr", "k": 3, "vecsize": -1, "counts": True, "threads": 2}, fa2), (mins, fa2), (dict(mins, preset="m2s"), fa2)]
+    streamers = [(dict(oligo, counts=True), fa2), (cgr1, clean_fa), (cgrk, fa2), (mins, fa2), (dict(mins, preset="m2s"), fa2)]
     for j, (o, src) in enumerate(streamers):
         out = ctx.path("cli_okind_%d" % j)
         clean(out)
